@@ -58,10 +58,10 @@ type Exemption struct {
 
 type Analysis struct {
 	pairNeedle *ssa.Parameter // set while the accept sets of a (set, byte) helper are collected
-	P     *core.Program
-	Root  *ssa.Function
-	Scope map[*ssa.Function]bool
-	funcs []*ssa.Function
+	P          *core.Program
+	Root       *ssa.Function
+	Scope      map[*ssa.Function]bool
+	funcs      []*ssa.Function
 
 	Tabs     *tables.Tables
 	Disp     *tables.Dispatch
